@@ -21,6 +21,12 @@ def one_schema(args):
     clone = len(args) > 6 and args[6]
     r = random.Random(seed * 100003 + si + (7919 if clone else 0))
     tabs, uns = vtree.random_schema(r, 0.25)
+    if si % 3 == 2:
+        # struct fields with every permitted force_align up to FLATCC_FORCE_ALIGN_MAX (the generator orders create arguments by alignment)
+        for fs in tabs:
+            for f in fs:
+                if f["kind"] == "s" and r.random() < 0.5:
+                    f["b"] = r.choice([32, 64, 128, 256]); f["a"] = f["b"] * r.choice([1, 1, 2])
     if si == -1:     # the recorded finding, deterministically: -0.0 given to a float field with default 0
         import fbenc
         tabs, uns = [[fbenc.fld(0, 0, "s", 4, 4), fbenc.fld(1, 0, "s", 8, 8)]], []
@@ -43,12 +49,16 @@ def one_schema(args):
         # long offset / union vectors on a fresh builder: its stacks have to grow while a vector or one of its elements is open
         fresh = r.random() < (0.3 if clone else 0.15)
         if fresh: g.long_vectors = 0.4
+        by_args = ci % 6 == 0      # a bottom-up case (style 0) in which every table whose fields are all present is built by <T>_create(B, args...)
+        if by_args: g.share, g.skip = 0.0, 0.05      # no shared objects, nearly every field present
         ti = r.randrange(len(tabs))
         try:
             t = g.table(ti, 0, False)
         except RecursionError:
             continue
         ws, typed, style, force = r.random() < 0.3, r.random() < 0.3, ci % 3, r.random() < 0.3
+        P.by_args = by_args
+        if by_args: force = False
         P.add_case(t, ti, ws, typed, style, force, fresh)
         meta.append(dict(ti=ti, ws=ws, typed=typed, style=style, force=force, fresh=fresh, shared=any(x == "r" for x in vtree.render(P.lowered[-1]))))
     d = os.path.join(ctx_work, "s%d" % si)
@@ -109,7 +119,7 @@ def one_schema(args):
     import shutil
     fbs = ty.fbs()
     shutil.rmtree(d, ignore_errors=True)
-    return dict(si=si, cases=res, fbs=fbs, tables=tabs, unions=uns)
+    return dict(si=si, cases=res, fbs=fbs, tables=tabs, unions=uns, by_args=getattr(P, "n_by_args", 0))
 
 
 def vtcache_stage(ctx, rt, n):
@@ -221,15 +231,17 @@ def run(ctx):
                 "structs with fixed arrays, scalar and struct vectors, string/table vectors, unions with explicit values incl. struct and string members, "
                 "union vectors with NONE, nested_flatbuffer table and struct roots, required) compiled by the current flatcc; value trees with boundary "
                 "scalars (no NaN), empty/long strings with NUL, shared strings/tables, fields added out of id order; built through the generated API in 3 styles "
-                "(bottom-up create + add; field-level create / nested start-end / start_as_root; push/append/extend/truncate + struct start/end), plain, "
+                "(bottom-up create + add, with every table whose fields are all present built by <T>_create(B, arguments) in half of these cases; field-level "
+                "create / nested start-end / start_as_root; push/append/extend/truncate + struct start/end), struct fields of every alignment up to 256, plain, "
                 "size-prefixed, typed roots, add vs force_add. Oracles: generated-reader dump == tree (defaults, is_present, null), independent decoder == tree, "
                 "generated verifier accepts, bytes == Lean model build. Unit stage: create_cached_vtable called directly with vtables differing in one "
                 "entry (every position) forced into one hash bucket: same reference only for identical bytes; references == model.",
         "vtable_cache_unit": vt_stats,
-        "schemas": len(results), "styles": styles, "force_add_cases": sum(1 for c in cases if c["meta"]["force"]),
+        "schemas": len(results), "styles": styles, "tables_built_by_create_arguments": sum(r.get("by_args", 0) for r in results),
+        "force_add_cases": sum(1 for c in cases if c["meta"]["force"]),
         "with_size": sum(1 for c in cases if c["meta"]["ws"]), "typed": sum(1 for c in cases if c["meta"]["typed"]),
         "traces_validated_against_impl": len(good), "correspondence_disagreements": len(corr), "spec_oracle_failures": len(spec)})
     ctx.samples = [{"case": c["meta"], "dump": (c["line"] or "")[-300:], "expected": c["expect"][:300]} for c in cases[:3]]
     ctx.notes = ["theorems are per table frame / per created object (any call order); their composition over whole trees is exercised by execution only",
-                 "<T>_create with positional arguments, clone and pick are not generated by this harness (see DESIGN.md)"]
+                 "clone and pick are exercised under C18 (same generator with the clone flag)"]
     finish(ctx, ths)
